@@ -21,6 +21,7 @@ class TableInfo:
     sub_select: ast.ASTNode = None
     predictor_info: dict = None
     join_condition = None
+    join_type = None
     index: int = None
 
 class PlanJoin:
@@ -185,6 +186,7 @@ class PlanJoinTablesQuery:
             sequence2 = self.get_join_sequence(node.right, condition=node.condition)
             if len(sequence2) != 1:
                 raise PlanningException('Unexpected join nesting behavior')
+            sequence2[0].join_type = node.join_type
 
             # put next table
             sequence.append(sequence2[0])
@@ -466,6 +468,11 @@ class PlanJoinTablesQuery:
         return columns_map
 
     def get_filters_from_join_conditions(self, fetch_table):
+
+        join_type = (fetch_table.join_type or '').upper()
+        if 'RIGHT' in join_type or 'FULL' in join_type:
+            # every row of this table is kept by the join: it can't be restricted by the ON clause
+            return []
 
         binary_ops = set()
         conditions = []
